@@ -1032,6 +1032,29 @@ def c08_programs(tier, sd):
                 "ops": [["cmode", ["top", "s1"], "sb", False], ["randomize", ["top"]], ["list_append", ["top", "l"], 0], ["new", ["t2", "obj", "Top"]],
                         ["randomize", ["top"]], ["randomize", ["t2"]], ["cmode", ["top", "l", 0], "sb", False], ["cmode", ["top", "s1", "inner"], "lb", False],
                         ["list_append", ["top", "l"], 0], ["new", ["t3", "obj", "Top"]], ["randomize", ["top"]], ["randomize", ["t3"]], ["randomize", ["t2"]]]})
+    # sub-objects owning a scalar list: a parent-level relation between a field of one and a constant subscript of the other's list
+    SubL = {"name": "SubL", "fields": [fld("x", ("u", 8)), fld("y", ("u", 8)), ["arr", "list", ["u", 8], 3, True, False]],
+            "blocks": [["ab", "c", [E(["<", F("x"), F("y")])]], ["ac", "c", [E(["<", F("arr", 0), lit(200)]), E(["!=", F("arr", 1), F("arr", 2)])]]]}
+    for r2 in (True, False):
+        for ci, cs in enumerate([[E(["<", ["+", F("s1", "x"), F("s2", "arr", 0)], lit(300)])], [E(["<", ["+", F("s2", "arr", 0), F("s1", "x")], lit(300)])],
+                                 [E(["==", F("s1", "y"), F("s2", "arr", 1)]), E(["<", F("s2", "x"), F("s1", "arr", 2)])],
+                                 [E(["<", F("s1", "x"), lit(50)]), E(["==", F("a"), F("s2", "arr", 2)]), E([">", F("s1", "arr", 0), F("s2", "arr", 0)])]]):
+            TopL = {"name": "Top", "fields": [fld("a", ("u", 8)), ["s1", "obj", "SubL", True], ["s2", "obj", "SubL", r2]], "blocks": [["tb", "c", cs]]}
+            out.append({"tag": "tree_sublist", "desc": "sub-objects with scalar lists, s2 rand=%s, cross set %d" % (r2, ci), "prog": {"enums": {}, "classes": [SubL, TopL]},
+                        "world": [["top", "obj", "Top"]],
+                        "ops": [["set", ["top", "s2", "x"], 3], ["set", ["top", "s2", "y"], 9], ["set", ["top", "s2", "arr", 0], 20], ["set", ["top", "s2", "arr", 1], 30],
+                                ["set", ["top", "s2", "arr", 2], 40], ["randomize", ["top"]], ["randomize", ["top"]],
+                                ["randomize_with", ["top"], [E([">", F("s1", "arr", 1), F("s1", "x")])]], ["vsc_randomize", [["top", "s1"]]]]})
+    # a list of objects created with a size: the elements are distinct objects
+    for lr in (True, False):
+        TopP = {"name": "Top", "fields": [fld("a", ("u", 8)), ["items", "list", ["obj", "Leaf"], 4, lr, False, "presized"]],
+                "blocks": [["tb", "c", [["foreach", ["items"], "i", [["if", [[[">", ["idx", "i"], lit(0)], [E([">", ["it", "i", "p"], F("items", ["idx", "i", -1], "p")])]]], None]]],
+                                        E(["<", F("a"), F("items", 3, "p")])]]]}
+        out.append({"tag": "tree_presized", "desc": "pre-sized list of 4 objects (rand=%s), chained elements" % lr, "prog": {"enums": {}, "classes": [Leaf, TopP]},
+                    "world": [["top", "obj", "Top"]],
+                    "ops": [["set", ["top", "items", 0, "p"], 7], ["set", ["top", "items", 1, "p"], 9], ["set", ["top", "items", 2, "p"], 30], ["set", ["top", "items", 3, "p"], 41],
+                            ["set", ["top", "items", 0, "q"], 1], ["set", ["top", "items", 1, "q"], 2], ["set", ["top", "items", 2, "q"], 3], ["set", ["top", "items", 3, "q"], 4],
+                            ["randomize", ["top"]], ["randomize", ["top"]], ["vsc_randomize", [["top", "items", 2]]], ["randomize_with", ["top"], [E(["<", F("items", 0, "p"), lit(9)])]]]})
     for r1, r2, rl in itertools.product((True, False), (True, False), (True, False)):
         if tier == "quick" and (r1, r2, rl) in ((False, False, True), (False, True, False)):
             continue
@@ -1109,6 +1132,16 @@ def c14_programs(tier, sd):
         [E(["<", ["ps", a, 7, 4], ["ulit", 3, 4]])],
         [],
     ]
+    # statements that follow a nested conditional inside a conditional body stay conditional
+    inner = [["implies", ["==", b, lit(1)], [E(["==", F("w"), lit(2)])]], ["if", [[["==", b, lit(1)], [E(["==", F("w"), lit(2)])]]], None],
+             ["if", [[["==", b, lit(1)], [E(["==", F("w"), lit(2)])]]], [E(["<", F("w"), lit(9)])]]]
+    tails = [[E(["<", a, lit(16)])], [E(["in", a, [["rng", lit(3), lit(9)]]])], [E([">", a, n1])], [E(["<", a, lit(16)]), E([">", c, lit(0)])]]
+    for inn in inner:
+        for tl in tails:
+            stmts.append([["if", [[["==", F("w"), lit(0)], [inn] + tl]], None]])
+            stmts.append([["if", [[["!=", F("w"), lit(0)], [E(["<", b, lit(3)])]]], [inn] + tl]])
+            stmts.append([["implies", ["<", F("w"), lit(100)], [inn] + tl]])
+            stmts.append([["if", [[["==", F("w"), lit(0)], [["implies", [">", b, lit(7)], [inn] + tl], E(["!=", a, lit(200)])]]], None], E([">=", a, lit(0)])])
     for lo1, hi1, lo2, hi2 in ((2, 4, 8, 12), (0, 0, 5, 9), (10, 20, 22, 22)):
         rngs = [["rng", lit(lo1), lit(hi1)], ["rng", lit(lo2), lit(hi2)]]
         for op in rel[:4]:
@@ -1141,6 +1174,15 @@ def c14_programs(tier, sd):
     out.append({"tag": "bounds_cmode", "desc": "disabled block does not narrow", "prog": pr, "world": [["top", "obj", "Top"]],
                 "ops": [["randomize", ["top"]], ["cmode", ["top"], "cb1", False], ["randomize", ["top"]], ["cmode", ["top"], "cb0", False], ["randomize", ["top"]],
                         ["cmode", ["top"], "cb1", True], ["randomize", ["top"]]]})
+    # an enum whose members are not declared in ascending value order
+    EU = dict(ENUMS)
+    EU["EU"] = [["URGENT", 8], ["HIGH", 4], ["NORMAL", 2], ["LOW", 1], ["NEG", -3]]
+    eu = [["e", "enum", "EU", True], ["g", "enum", "EU", True], fld("a", ("u", 8))]
+    for st in ([], [E(["in", F("e"), [["enum", "EU", "LOW"], ["enum", "EU", "NORMAL"], ["enum", "EU", "HIGH"]]])], [E([">=", F("e"), ["enum", "EU", "NORMAL"]])],
+               [E([">", F("e"), ["enum", "EU", "LOW"]]), E(["<", F("g"), ["enum", "EU", "HIGH"]])], [E(["!=", F("e"), ["enum", "EU", "URGENT"]]), E(["<", F("e"), F("g")])],
+               [E(["in", F("e"), [["enum", "EU", "URGENT"], ["enum", "EU", "NEG"]]]), E(["==", F("a"), lit(1)])]):
+        out.append({"tag": "bounds_enum", "desc": "unordered enum bounds %s" % (st,), "prog": one_class(eu, st, EU), "world": [["top", "obj", "Top"]],
+                    "ops": [["randomize", ["top"]], ["randomize", ["top"]], ["randomize_with", ["top"], [E(["!=", F("g"), ["enum", "EU", "LOW"]])]]]})
     ef = [["e", "enum", "E4", True], ["g", "enum", "E3", True], fld("a", ("u", 8))]
     for st in ([], [E(["!=", F("e"), ["enum", "E4", "P"]])], [E(["in", F("e"), [["enum", "E4", "Q"], ["enum", "E4", "S"]]])],
                [E([">", F("e"), ["enum", "E4", "Q"]])], [E(["==", F("a"), lit(3)])]):
